@@ -38,24 +38,40 @@ def free_names(stmts, mod):
 def server_call_fragment(repo, rule):
     """The statements Server.bidding_phase applies to a call message between taking it from the
     acting seat's queue and having the call object: (stmts, message variable, seat variable, result variable)."""
-    ci, fn = repo.method('Server', 'bidding_phase', rule)
-    loops = [n for n in ast.walk(fn) if isinstance(n, ast.While)]
-    for lp in loops:
-        gi = pi = None
-        for i, st in enumerate(lp.body):
-            if isinstance(st, ast.Assign) and isinstance(st.targets[0], ast.Name):
-                if gi is None and contains_call(st.value, 'get'):
-                    gi = i
-                if contains_call(st.value, 'parse_bid'):
-                    pi = i
-        if gi is not None and pi is not None and gi < pi:
-            frag = lp.body[gi + 1:pi + 1]
-            msgvar = lp.body[gi].targets[0].id
-            res = lp.body[pi].targets[0].id
-            fr = [n for n in free_names(frag, ci.module) if n not in (msgvar, 'self', 'logger')]
-            if len(fr) != 1:
-                raise AnalysisError(rule, 'Server.bidding_phase', f'call-normalisation fragment depends on {fr}, expected the acting seat only')
-            return ci, fn, frag, msgvar, fr[0], res
+    ci, fn0 = repo.method('Server', 'bidding_phase', rule)
+    # the statements may sit in the auction loop itself or in a helper method it calls: every statement block of the methods of Server
+    # reachable from bidding_phase through self-calls is a candidate
+    seen, todo, fns = set(), [fn0], []
+    while todo:
+        g = todo.pop()
+        if id(g) in seen:
+            continue
+        seen.add(id(g))
+        fns.append(g)
+        for n in ast.walk(g):
+            if isinstance(n, ast.Call) and isinstance(n.func, ast.Attribute) and isinstance(n.func.value, ast.Name) and n.func.value.id == 'self':
+                for c in repo.mro(ci):
+                    if n.func.attr in c.methods:
+                        todo.append(c.methods[n.func.attr])
+                        break
+    for fn in fns:
+        blocks = [fn.body] + [getattr(n, a) for n in ast.walk(fn) for a in ('body', 'orelse') if isinstance(n, (ast.While, ast.For, ast.If, ast.With)) and getattr(n, a, None)]
+        for body in blocks:
+            gi = pi = None
+            for i, st in enumerate(body):
+                if isinstance(st, ast.Assign) and isinstance(st.targets[0], ast.Name):
+                    if gi is None and contains_call(st.value, 'get'):
+                        gi = i
+                    if contains_call(st.value, 'parse_bid'):
+                        pi = i
+            if gi is not None and pi is not None and gi < pi:
+                frag = body[gi + 1:pi + 1]
+                msgvar = body[gi].targets[0].id
+                res = body[pi].targets[0].id
+                fr = [n for n in free_names(frag, ci.module) if n not in (msgvar, 'self', 'logger')]
+                if len(fr) != 1:
+                    raise AnalysisError(rule, f'Server.{fn.name}', f'call-normalisation fragment depends on {fr}, expected the acting seat only')
+                return ci, fn, frag, msgvar, fr[0], res
     raise AnalysisError(rule, 'Server.bidding_phase', 'cannot locate `msg = queue.get()` ... `parse_bid(msg, seat)` in the auction loop')
 
 
